@@ -53,6 +53,8 @@ def _via_setter(case):
 def _there_and_back(obj, mode, val, other=1.0e6):
     """History (construct with the setting) -> set_fixed_threshold(everything recurrent) -> the setting again."""
     obj.set_fixed_threshold(other)
+    if hasattr(obj, "diagline_dist") and type(obj).__name__ != "CrossRecurrencePlot":
+        _lines(obj)
     getattr(obj, SETTER[mode])(val)
     return obj
 
@@ -72,6 +74,7 @@ def _obs_rp(cls, ts, kw, network, via=False):
         elif via:
             mode, val, rest = _split_mode(kw)
             rp = cls(ts, silence_level=3, threshold=1.0e6, **rest)
+            _lines(rp)          # the quantification methods have been used before the setting changes
             if mode == "adaptive_neighborhood_size" and hasattr(rp, "N"):
                 # the documented processing order of the state vectors: standard, reversed or rotated (whatever
                 # the order, every state ends up with at least the requested number of neighbours)
@@ -200,6 +203,7 @@ def _j(c):
             elif _via_setter(c["case"]):
                 rest = {k: v for k, v in kw.items() if k != key}
                 obj = cls(x, y, silence_level=3, threshold=(1.0e6, 1.0e6), **rest)
+                _lines(obj)     # the quantification methods have been used before the setting changes
                 getattr(obj, SETTER[key])(kw[key])
             else:
                 obj = cls(x, y, silence_level=3, **kw)
